@@ -135,3 +135,18 @@ var FilterContents = []string{
 var FilterContentsOdd = []string{
 	"$share", "$share/", "$share/g", "$share//", "$share//t", "$share/g/", "$share/+/t", "$share/#", "a#", "#/a", "+a", "a+/b", "\x00", "a/\x00/b", "\xff\xfe",
 }
+
+// SpecialContents: short contents with a meaning to formatters, parsers and
+// brokers (all valid UTF-8, no NUL: legal in every MQTT string).
+var SpecialContents = []string{" ", "\t", "  ", " a ", "\n", "%", "%d%s", "/", "#", "+", "$", "a b c", "\"", "{}", "0", "-1", "..", "a,b"}
+
+// WithSiteContent returns a copy of base whose site holds content.
+func WithSiteContent(base *spec.Packet, site int, content string) *spec.Packet {
+	p := base.Clone()
+	ss := Sites(p)
+	if site >= len(ss) {
+		return nil
+	}
+	*ss[site].Ptr(p) = []byte(content)
+	return p
+}
